@@ -93,7 +93,24 @@ def s(conc_sampler, tree, tree_dist):
     # the run loop calls it with the chain's own sampler, tree and tree_dist, only when enabled
     m = prog.fn("run._run_main_sampler")
     cs = calls(m.node, name="update_concentration_value")
-    ok = len(cs) == 1 and [u(a) for a in cs[0].args] == ["conc_sampler", "tree", "tree_dist"]
+    # locals bound once to an attribute of a parameter (`conc_sampler = samplers.conc_sampler`) are spelt out
+    alias = {}
+    for n in ast.walk(m.node):
+        if isinstance(n, ast.Assign) and len(n.targets) == 1 and isinstance(n.targets[0], ast.Name) and isinstance(n.value, ast.Attribute) and isinstance(n.value.value, ast.Name):
+            alias.setdefault(n.targets[0].id, []).append(n.value)
+
+    def spelt(a):
+        if isinstance(a, ast.Name) and len(alias.get(a.id, [])) == 1:
+            a = alias[a.id][0]
+        return u(a)
+
+    got_args = [spelt(a) for a in cs[0].args] if len(cs) == 1 and not cs[0].keywords else None
+    ok = got_args is not None and len(got_args) == 3 and got_args[0].split(".")[-1] == "conc_sampler" and got_args[0].split(".")[0] in m.params + ["conc_sampler"] and got_args[1:] == ["tree", "tree_dist"]
+    if not ok and not cs:
+        # not called here by name: through a helper newer than the rules?  then where it is called is not followed
+        helpers = [g for g in prog.functions.values() if prog.is_new_function(g) and calls(g.node, name="update_concentration_value")]
+        if helpers:
+            raise AnalysisError("U2: update_concentration_value is called from %s, not from _run_main_sampler: the call site is not followed" % helpers[0].qualname)
     ctx.check(ok, "U2", "_run_main_sampler updates the concentration of the chain's tree_dist from the current tree", m.where(cs[0]) if cs else m.where(), "update_concentration_value is not called once with (conc_sampler, tree, tree_dist)", construct=m.qualname, stmt="update_concentration_value(conc_sampler, tree, tree_dist)")
 
     rule_U3(ctx)
